@@ -62,8 +62,8 @@ func lenClass(n int) string {
 	return ">1025"
 }
 
-// checkBytes judges one rendering of want.
-func (k *checker) checkBytes(i int, entry, gen string, f form, want, got []byte) {
+// checkBytes judges one rendering of want and reports whether it is exact.
+func (k *checker) checkBytes(i int, entry, gen string, f form, want, got []byte) bool {
 	c := k.c
 	bad := func(rule, format string, a ...any) {
 		c.Violate(core.Violation{Kind: "oracle", Entry: entry, Site: rule, Gen: gen, Case: i, Detail: fmt.Sprintf("form %s: ", f.name) + fmt.Sprintf(format, a...),
@@ -82,24 +82,25 @@ func (k *checker) checkBytes(i int, entry, gen string, f form, want, got []byte)
 	case "bin":
 		if !bytes.Equal(got, want) {
 			bad("raw-rendering-not-exact", "output (%d bytes) differs from the field (%d bytes): %s", len(got), len(want), firstDiff(got, want))
-			return
+			return false
 		}
 	case "hex":
 		dec, err := hex.DecodeString(string(got))
 		if err != nil || !bytes.Equal(dec, want) {
 			bad("hex-rendering-does-not-decode-to-field", "output %q (err %v) does not decode to the %d field bytes", clipS(got), err, len(want))
-			return
+			return false
 		}
 	case "base64":
 		dec, err := base64.StdEncoding.DecodeString(string(got))
 		if err != nil || !bytes.Equal(dec, want) {
 			bad("base64-rendering-does-not-decode-to-field", "output %q (err %v) does not decode (standard alphabet) to the %d field bytes", clipS(got), err, len(want))
-			return
+			return false
 		}
 	}
 	k.renderOK[entry+"/"+f.name] = true
 	c.Count("rendering-exact/"+entry+"/"+f.name, 1)
 	c.Cell("render|%s|%s|%s|exact", entry, f.name, lenClass(len(want)))
+	return true
 }
 
 func clip(b []byte) []byte {
@@ -214,14 +215,16 @@ func bytesPaths(m protoreflect.Message, prefix []pathref.Step, out *[][]pathref.
 func cliSafe(s string) bool { return !strings.ContainsAny(s, ",\"'\\\n\r\x00") && s != "" }
 
 // judgeMask judges one Mask-like call (API or CLI) on a path with reference walk w.
-func (k *checker) judgeMask(i int, entry, gen, text string, parses bool, msg protoreflect.Message, w pathref.Walked, f form, out []byte, err error) {
+func (k *checker) judgeMask(i int, entry, gen, text string, parses bool, msg protoreflect.Message, w pathref.Walked, f form, out []byte, err error) (ok bool) {
 	c := k.c
 	if !parses && err != nil {
 		// ParsePath itself rejects the text: allowed by C19 whatever the path addresses (counted, floors apply)
 		c.Count("mask/"+entry+"/path-parse-rejected/expected-"+w.Status.String(), 1)
-		return
+		return true
 	}
+	ok = true
 	viol := func(rule, format string, a ...any) {
+		ok = false
 		c.Violate(core.Violation{Kind: "oracle", Entry: entry, Site: rule, Gen: gen, Case: i, Detail: fmt.Sprintf("path %q, form %s: ", text, f.name) + fmt.Sprintf(format, a...),
 			Witness: map[string]any{"path": text, "message_type": string(msg.Descriptor().FullName()), "message_text": showMsg(msg), "message_wire_b64": wireB64(msg), "reference": w.Status.String(), "reference_why": w.Why}})
 	}
@@ -239,11 +242,12 @@ func (k *checker) judgeMask(i int, entry, gen, text string, parses bool, msg pro
 		viol("value-for-"+map[pathref.Status]string{pathref.Absent: "absent-element", pathref.IllTyped: "unwalkable-path"}[w.Status],
 			"the path addresses nothing (%s) but the call succeeded with output %q", w.Why, clipS(out))
 	case w.Final == "bytes":
-		k.checkBytes(i, entry, gen, f, w.Last().Bytes(), out)
+		ok = k.checkBytes(i, entry, gen, f, w.Last().Bytes(), out)
 		c.Cell("mask|%s|%s|bytes|present|rendered", entry, cut(w.Shape))
 	default:
 		c.Count("mask/"+entry+"/non-bytes-rendered(not judged)", 1)
 	}
+	return ok
 }
 
 // parses reports whether ParsePath accepts the text for the root type (panics are reported by guard).
